@@ -160,6 +160,12 @@ def decoder_consumers():
         "sc_polar_minsum": mk(lambda: E.PolarCodeEncoder(4, 8), lambda e: D.SuccessiveCancellationDecoder(e, regime="min_sum")),
         "bp_polar": mk(lambda: E.PolarCodeEncoder(4, 8), lambda e: D.BeliefPropagationPolarDecoder(e)),
         "rm_soft": mk(lambda: E.ReedMullerCodeEncoder(1, 3), lambda e: D.ReedMullerDecoder(e, input_type="soft")),
+        # larger sizes and the bit-reversal option (recursions behave differently once sub-blocks exceed length 4)
+        "sc_polar_interleaved_16": mk(lambda: E.PolarCodeEncoder(8, 16, polar_i=True), lambda e: D.SuccessiveCancellationDecoder(e)),
+        "sc_polar_interleaved_32_minsum": mk(lambda: E.PolarCodeEncoder(16, 32, polar_i=True, frozen_zeros=False), lambda e: D.SuccessiveCancellationDecoder(e, regime="min_sum")),
+        "sc_polar_32": mk(lambda: E.PolarCodeEncoder(16, 32), lambda e: D.SuccessiveCancellationDecoder(e)),
+        "bp_polar_32": mk(lambda: E.PolarCodeEncoder(16, 32), lambda e: D.BeliefPropagationPolarDecoder(e)),
+        "rm_soft_2_4": mk(lambda: E.ReedMullerCodeEncoder(2, 4), lambda e: D.ReedMullerDecoder(e, input_type="soft")),
     }
 
 
